@@ -30,7 +30,8 @@ class Contract:
                  result="none", effects=None, exc_ensures=(), entry=None, assumed=False, note="", ghost=None,
                  canaries=(), covers=(), max_unroll=8, use=None, label="", ghost_params=None, split_cases=(),
                  replay=None, search=None, timeout=None, order=None, gen=None,
-                 ascii_strings=(), ascii_hints=(), steps=()):
+                 ascii_strings=(), ascii_hints=(), steps=(), model=None):
+        self.model = model
         self.steps = _l(steps)
         self.ascii_strings = list(ascii_strings)
         self.ascii_hints = list(ascii_hints)
@@ -176,6 +177,12 @@ class VerifCtx:
         self._imports = {}
         self.extra_globals = {}
         self.class_fields = {}  # cls -> {field: kind} for SRef heaps
+        self.float_binop = None
+        self.float_compare = None
+        self.obj_binop = None
+        self.constructors = {}
+        self.bytearray_as_mem = False
+        self.native_modules = {}
         self.assumptions = []
         self.spec("ipow", [Int, Int, Int],
                   lambda f, b, e: z3.Implies(e >= 0, f(b, e) == z3.If(e == 0, z3.IntVal(1), b * f(b, e - 1))),
@@ -343,6 +350,8 @@ class VerifCtx:
             if m.startswith("numbers_parser.") and orig is not None:
                 sub = m.split(".")[1]
                 if sub == "generated":
+                    if len(m.split(".")) == 2:
+                        return self.native_module(f"numbers_parser.generated.{orig}")
                     return self.generated_const(m, orig, name)
                 return self.resolve_in_module(sub, orig, ex, depth + 1)
             if m == "numbers_parser" and orig is not None:
@@ -359,6 +368,13 @@ class VerifCtx:
                 return Builtin("suppress")
             if m == "math" and orig is None:
                 return _Module("math", {})
+            if m == "logging" and orig is None:
+                lvl = ex.fresh("int", "loglevel")
+                return _Module("logging", {"DEBUG": 10, "getLogger": _SpecCallable(
+                    lambda ex_, *a: PObj("Logger", {"level": lvl}))})
+            if m == "dataclasses" and orig == "fields":
+                return _SpecCallable(lambda ex_, o: PList([PObj("Field", {"name": f}) for f, _ in
+                                                           self.dataclass_fields(o.cls, ex_)]))
         return NotImplemented
 
     def module_value(self, mod, name, val, ex):
@@ -455,6 +471,9 @@ class VerifCtx:
         return NotImplemented
 
     def call_obj_method(self, ex, obj, name, args, kwargs, line):
+        mm = getattr(self, "method_models", {}).get((obj.cls, name))
+        if mm is not None:
+            return mm(ex, obj, args, kwargs, line)
         f = self.find_method(obj.cls, name)
         if f is None:
             mc = self.method_contract(obj.cls, name)
@@ -618,10 +637,49 @@ class VerifCtx:
         return None
 
     def struct_pack(self, ex, args, line):
-        raise Unsupported("struct.pack")
+        from . import bytemem
+        return bytemem.struct_pack(ex, args, line)
 
     def struct_unpack(self, ex, args, line):
-        raise Unsupported("struct.unpack")
+        from . import bytemem
+        return bytemem.struct_unpack(ex, args, line)
+
+    def super_attr(self, ex, sup, name, line):
+        from .sym import _BoundFunc
+        mro = self.mro(sup.obj.cls if isinstance(sup.obj, PObj) else sup.cls)
+        after = mro[mro.index(sup.cls) + 1:] if sup.cls in mro else []
+        idx = self.class_index()
+        for c in after:
+            if c not in idx:
+                continue
+            mod, node, _ = idx[c]
+            for n in node.body:
+                if isinstance(n, ast.FunctionDef) and n.name == name:
+                    return _BoundFunc(Func(n, mod, cls=c), sup.obj)
+            if name == "__init__" and any(ast.unparse(d).split("(")[0] == "dataclass" for d in node.decorator_list):
+                def dc_init(ex_, *args, c=c):
+                    flds = self.dataclass_fields(c, ex_)
+                    for i, (f, default) in enumerate(flds):
+                        v = args[i] if i < len(args) else (default() if callable(default) else default)
+                        if v is NotImplemented:
+                            raise Unsupported(f"{c}(): missing field {f}")
+                        ex_.set_attr(sup.obj, f, v, line)
+                    return None
+                return _SpecCallable(dc_init)
+        if name == "__init__":
+            return _SpecCallable(lambda ex_, *a: None)  # object.__init__
+        raise Unsupported(f"super().{name} at L{line}")
+
+    def native_module(self, modname):
+        """Integer constants of a generated protobuf module, read from the real module under /venv/bin/python."""
+        if modname not in self.native_modules:
+            import subprocess, json as _json
+            code = ("import json,%s as m\n"
+                    "print(json.dumps({k:int(getattr(m,k)) for k in dir(m) if isinstance(getattr(m,k),int) and not k.startswith('_')}))") % modname
+            p = subprocess.run(["/venv/bin/python", "-c", code], capture_output=True, text=True, timeout=60,
+                               env={**os.environ, "PYTHONPATH": os.path.join(extract.REPO, "src")})
+            self.native_modules[modname] = _json.loads(p.stdout.strip().splitlines()[-1])
+        return _Module(modname, dict(self.native_modules[modname]))
 
 
 def _mk_specfn_call(sf):
